@@ -4919,13 +4919,15 @@ namespace awkward {
       builder.integer((int64_t)array[0]);
     }
     else if (ndim() == 1) {
-      T* array = reinterpret_cast<T*>(data());
-      int64_t stride = strides_[0] / (int64_t)(sizeof(T));
+      const char* bytes = reinterpret_cast<const char*>(data());
+      int64_t stride = (int64_t)strides_[0];   // in bytes: need not be a multiple of sizeof(T)
       if (include_beginendlist) {
         builder.beginlist();
       }
       for (int64_t i = 0;  i < length();  i++) {
-        builder.integer((int64_t)array[i*stride]);
+        T item;
+        std::memcpy(&item, bytes + i*stride, sizeof(T));
+        builder.integer((int64_t)item);
       }
       if (include_beginendlist) {
         builder.endlist();
@@ -4966,13 +4968,15 @@ namespace awkward {
       builder.real(array[0]);
     }
     else if (ndim() == 1) {
-      T* array = reinterpret_cast<T*>(data());
-      int64_t stride = strides_[0] / (int64_t)(sizeof(T));
+      const char* bytes = reinterpret_cast<const char*>(data());
+      int64_t stride = (int64_t)strides_[0];   // in bytes: need not be a multiple of sizeof(T)
       if (include_beginendlist) {
         builder.beginlist();
       }
       for (int64_t i = 0;  i < length();  i++) {
-        builder.real(array[i*stride]);
+        T item;
+        std::memcpy(&item, bytes + i*stride, sizeof(T));
+        builder.real(item);
       }
       if (include_beginendlist) {
         builder.endlist();
@@ -5013,13 +5017,15 @@ namespace awkward {
       builder.complex(array[0]);
     }
     else if (ndim() == 1) {
-      T* array = reinterpret_cast<T*>(data());
-      int64_t stride = strides_[0] / (int64_t)(sizeof(T));
+      const char* bytes = reinterpret_cast<const char*>(data());
+      int64_t stride = (int64_t)strides_[0];   // in bytes: need not be a multiple of sizeof(T)
       if (include_beginendlist) {
         builder.beginlist();
       }
       for (int64_t i = 0;  i < length();  i++) {
-        builder.complex(array[i*stride]);
+        T item;
+        std::memcpy(&item, bytes + i*stride, sizeof(T));
+        builder.complex(item);
       }
       if (include_beginendlist) {
         builder.endlist();
